@@ -69,9 +69,14 @@ class G:
         for name, a in self.calls.items():
             if a == arity and self.r.chance(1, 2):
                 return name
-        name = "M0%d%s" % (arity, self.r.choice(REST))
+        def fresh():
+            # a method may be named by any NameString: a single segment, rooted, or reached through other segments
+            seg = "M0%d%s" % (arity, self.r.choice(REST))
+            k = self.r.below(8)
+            return seg if k < 5 else ("\\" + seg if k == 5 else (self.plain_seg() + "." + seg if k == 6 else "\\" + self.plain_seg() + "." + self.plain_seg() + "." + seg))
+        name = fresh()
         while name in self.calls and self.calls[name] != arity:
-            name = "M0%d%s" % (arity, self.r.choice(REST))
+            name = fresh()
         self.calls[name] = arity
         return name
 
